@@ -87,8 +87,8 @@ Compat(got, exp, fnok) ==
                 IF IsVar(got) \/ IsVar(exp) THEN got = exp
                 ELSE /\ Compat(got.r, exp.r, fnok)
                      /\ Len(got.ps) = Len(exp.ps)
-                     /\ \A j \in 1..Len(exp.ps) : \E h \in 1..Len(got.ps) :
-                            got.ps[h].n = exp.ps[j].n /\ Compat(got.ps[h].t, exp.ps[j].t, fnok)
+                     \* (arguments are passed by position: same name and compatible type at the same place)
+                     /\ \A j \in 1..Len(exp.ps) : got.ps[j].n = exp.ps[j].n /\ Compat(got.ps[j].t, exp.ps[j].t, fnok)
            [] OTHER -> TRUE
 
 \* two function types of the same shape: parameters are compared by position, their names do not matter
@@ -384,6 +384,8 @@ TypeOfRaw(env, ctx, e) ==
       [] e.k = "asg" ->
             LET a == TypeOf(env, ctx, e.pl) IN
             IF a.c # "ok" THEN a
+            \* a function of the module is no variable: nothing can be assigned to its name
+            ELSE IF e.pl.k = "var" /\ Lookup(env, e.pl.x) = NIL /\ e.pl.x \in DOMAIN ctx.fns THEN Fail("AssignMismatch")
             ELSE LET b == TypeOf(env, ctx, e.e) IN
                  IF b.c # "ok" THEN b
                  \* (as for an annotated let: a function value may be assigned unless a value of type any would have to be cast to it)
